@@ -15,7 +15,7 @@ _base = dict(driver="drv_container", harness="container", shards=dict(quick=2, t
                       "NNS is modelled only as far as the Container contract uses it (second-level and deeper alias domains, no expiry within a history, no records written by third parties)",
                       "NeoFSID.addKey is modelled by its argument guard only; its storage is not observed"])
 PROPS = {
-    "C04": dict(_base, lean=["NeoFS.Props.C04"], monitors=["C04"]),
+    "C04": dict(_base, lean=["NeoFS.Props.C04"], monitors=["C04"], facts=["consts", "footprint"]),
     "C05": dict(_base, lean=["NeoFS.Props.C05"], monitors=["C05"]),
 }
 NOTE = ("Theorems are about NeoFS/Model/Container.lean, a branch-by-branch model of put/putNamed/putMeta/delete/setEACL and the getters of "
